@@ -151,7 +151,13 @@ func (fv *FV) evalBuiltin(st *State, name string, c *ast.CallExpr) []Term {
 		return []Term{fv.allocZero(st, t, c.Pos())}
 	case "make":
 		t := fv.typeOf(c)
-		switch ut := t.Underlying().(type) {
+		under := t.Underlying()
+		if tp, ok := types.Unalias(t).(*types.TypeParam); ok {
+			if ct := coreType(tp); ct != nil {
+				under = ct // make(Slice, …) with Slice ~[]T
+			}
+		}
+		switch ut := under.(type) {
 		case *types.Slice:
 			n := fv.toInt(fv.evalExpr(st, c.Args[1]))
 			cp := n
